@@ -132,6 +132,7 @@ struct Agg {
     diag: BTreeMap<String, GFinding>,
     deaths: u64,
     per_unit: BTreeMap<usize, (u64, u64)>,
+    base_ok: BTreeSet<usize>,
     batches: u64,
     calls_done: u64,
 }
@@ -157,6 +158,7 @@ impl Agg {
         f.0 += r.evaluated;
         f.1 += nt;
         f.2 += r.micros;
+        self.base_ok.extend(r.base_ok.iter().copied());
         let pu = self.per_unit.entry(unit_idx).or_default();
         pu.0 += r.evaluated;
         pu.1 += r.micros;
@@ -559,7 +561,7 @@ pub fn run(ctx: Ctx) -> ! {
         let st = agg.per_entry.get(&i).cloned().unwrap_or_default();
         if st.calls == 0 {
             problems.push(format!("entry point {} never called", e.name));
-        } else if st.ok == 0 && !e.name.contains("unsupported") {
+        } else if st.ok == 0 && !agg.base_ok.contains(&i) && !e.name.contains("unsupported") {
             problems.push(format!("entry point {} never returned a value", e.name));
         } else if st.err == 0 {
             problems.push(format!("entry point {} never returned an error", e.name));
@@ -745,14 +747,23 @@ fn splice_representatives(world: &World, members: &[usize]) -> Vec<usize> {
     if m.len() <= cap {
         return m;
     }
-    let mut seen = BTreeSet::new();
-    let mut out = vec![];
-    for i in m {
-        let s = &world.seeds[i];
-        if seen.insert((s.bytes.len(), s.bytes.first().copied())) && out.len() < cap {
+    // first one seed per distinct first byte, then one per distinct
+    // (length, first byte), in seed order, up to the cap
+    let mut out: Vec<usize> = vec![];
+    let mut seen1 = BTreeSet::new();
+    for &i in &m {
+        if out.len() < cap && seen1.insert(world.seeds[i].bytes.first().copied()) {
             out.push(i);
         }
     }
+    let mut seen2 = BTreeSet::new();
+    for &i in &m {
+        let s = &world.seeds[i];
+        if out.len() < cap && !out.contains(&i) && seen2.insert((s.bytes.len(), s.bytes.first().copied())) {
+            out.push(i);
+        }
+    }
+    out.sort();
     out
 }
 
